@@ -31,6 +31,9 @@ pub enum Pure {
     /// a value the harness's ROpts cannot spell
     OptsHeartbeatZero(ROpts),
     BadOpts(String),
+    /// a query string written by hand in one of the spellings the server's parser accepts (bare
+    /// flags, yes/no, 1/0, extra parameters): (follow spelling, tail spelling, limit, extra)
+    OptsSpelled(u8, u8, Option<u32>, bool),
     FrameJson {
         spec: FrameSpec,
         hash_kind: u8,
@@ -191,6 +194,7 @@ pub fn pure_strategy() -> BoxedStrategy<Pure> {
         4 => ropts().prop_map(Pure::Opts),
         1 => ropts().prop_map(Pure::OptsHeartbeatZero),
         2 => bad_opts().prop_map(Pure::BadOpts),
+        2 => (0u8..9, 0u8..9, proptest::option::weighted(0.4, 0u32..1000), any::<bool>()).prop_map(|(f, t, l, x)| Pure::OptsSpelled(f, t, l, x)),
         4 => (frame_spec(), 0u8..6, any::<bool>()).prop_map(|(spec, hash_kind, sparse)| Pure::FrameJson { spec, hash_kind, sparse }),
     ]
     .boxed()
@@ -344,6 +348,68 @@ pub fn check_pure(case: &Pure) -> Result<CaseInfo, Fail> {
             }
             info.labels.push("opts-roundtrip-heartbeat-0".into());
             info.nontrivial = true;
+            info.shape = hash64(q.as_bytes());
+        }
+        Pure::OptsSpelled(fsp, tsp, limit, extra) => {
+            // (the spellings and their meaning: ReadOptions::from_query's documented and tested
+            // forms - a bare flag or an empty value switches it on, false/no(/0 for tail) off)
+            let (fq, fwant): (Option<&str>, FollowOption) = match fsp % 9 {
+                0 => (None, FollowOption::Off),
+                1 => (Some("follow"), FollowOption::On),
+                2 => (Some("follow="), FollowOption::On),
+                3 => (Some("follow=yes"), FollowOption::On),
+                4 => (Some("follow=true"), FollowOption::On),
+                5 => (Some("follow=false"), FollowOption::Off),
+                6 => (Some("follow=no"), FollowOption::Off),
+                7 => (Some("follow=250"), FollowOption::WithHeartbeat(Duration::from_millis(250))),
+                _ => (Some("follow=0"), FollowOption::WithHeartbeat(Duration::ZERO)),
+            };
+            let (tq, twant): (Option<&str>, bool) = match tsp % 9 {
+                0 => (None, false),
+                1 => (Some("tail"), true),
+                2 => (Some("tail="), true),
+                3 => (Some("tail=true"), true),
+                4 => (Some("tail=yes"), true),
+                5 => (Some("tail=1"), true),
+                6 => (Some("tail=false"), false),
+                7 => (Some("tail=no"), false),
+                _ => (Some("tail=0"), false),
+            };
+            let mut parts: Vec<String> = vec![];
+            if *extra {
+                parts.push("foo=bar".into());
+            }
+            // tail first in half of the cases
+            if tsp % 2 == 0 {
+                parts.extend(tq.map(|s| s.to_string()));
+                parts.extend(fq.map(|s| s.to_string()));
+            } else {
+                parts.extend(fq.map(|s| s.to_string()));
+                parts.extend(tq.map(|s| s.to_string()));
+            }
+            if let Some(l) = limit {
+                parts.push(format!("limit={l}"));
+            }
+            let q = parts.join("&");
+            let got = ReadOptions::from_query(if q.is_empty() { None } else { Some(&q) });
+            let want = ReadOptions {
+                follow: fwant,
+                tail: twant,
+                last_id: None,
+                limit: limit.map(|l| l as usize),
+                context_id: None,
+            };
+            match &got {
+                Ok(g) if *g == want => {}
+                other => {
+                    return Err(f(
+                        Class::Field,
+                        format!("query {q:?} parsed as {:?}; its spelling means {want:?}", other.as_ref().map_err(|e| e.to_string())),
+                    ))
+                }
+            }
+            info.labels.push("opts-hand-spelled".into());
+            info.nontrivial = fq.is_some() && tq.is_some();
             info.shape = hash64(q.as_bytes());
         }
         Pure::BadOpts(q) => {
